@@ -67,14 +67,17 @@ func inlineRefs(root map[string]any, node any, depth int, underDisc bool) any {
 	return node
 }
 
-func inlinedSpec(spec []byte) []byte {
+// inlinedSpec inlines every reference; with componentsOnly the references from paths to the
+// top-level components stay (the bodies keep their names: goag names helper types hoisted from
+// anonymous bodies by property name only, KF-C01-nameCollision) and only the references between
+// components are inlined.
+func inlinedSpec(spec []byte, componentsOnly bool) []byte {
 	var root map[string]any
 	json.Unmarshal(spec, &root)
 	out := map[string]any{}
 	for k, v := range root {
-		if k == "components" {
-			// component definitions themselves are inlined too (they stay available by name)
-			out[k] = inlineRefs(root, v, 0, false)
+		if k != "components" && componentsOnly {
+			out[k] = v
 		} else {
 			out[k] = inlineRefs(root, v, 0, false)
 		}
@@ -115,14 +118,14 @@ func facetRef(args []string) error {
 			rs.Gen.Client = false
 			g2 := rs.Gen
 			g2.Name = base + "i"
-			g2.Spec = inlinedSpec(rs.Gen.Spec)
+			g2.Spec = inlinedSpec(rs.Gen.Spec, false)
 			pairs = append(pairs, pair{kind: "params", ref: rs.Gen, inl: g2, rs: rs})
 		case 1:
-			env := genJSONEnv(rng.Fork(), jsonFeats{addl: true, inlineObj: true, allOf: true, nullablePrim: true, oneOf: true, anyType: true})
+			env := genJSONEnv(rng.Fork(), jsonFeats{addl: true, inlineObj: true, allOf: true, tailAddl: true, nullablePrim: true, oneOf: true, anyType: true})
 			g := GenSpec{Name: base + "r", Spec: env.specDoc(), Ext: "json", DoNotEdit: true}
 			g2 := g
 			g2.Name = base + "i"
-			g2.Spec = inlinedSpec(g.Spec)
+			g2.Spec = inlinedSpec(g.Spec, i%2 == 1)
 			pairs = append(pairs, pair{kind: "json", ref: g, inl: g2, env: env})
 		default:
 			rsp := genRespSpec(rng.Fork(), base+"r")
@@ -131,8 +134,24 @@ func facetRef(args []string) error {
 			}
 			g2 := rsp.Gen
 			g2.Name = base + "i"
-			g2.Spec = inlinedSpec(rsp.Gen.Spec)
+			g2.Spec = inlinedSpec(rsp.Gen.Spec, false)
 			pairs = append(pairs, pair{kind: "resp", ref: rsp.Gen, inl: g2, resp: rsp})
+		}
+	}
+	if *shard == 0 {
+		// fixed witnesses of KF-C01-nameCollision / KF-C01-hoistedRawName: helper types hoisted from
+		// an anonymous (inlined) request / response body are named after the property alone
+		for wi, prop := range []string{"note", "x-val"} {
+			env := &jsonEnv{comps: map[string]*JS{}}
+			env.comps["Pet"] = &JS{Kind: "obj", Props: []JProp{{Name: "id", Req: true, S: &JS{Kind: "int"}},
+				{Name: prop, S: &JS{Kind: "arr", Items: &JS{Kind: "obj", Props: []JProp{{Name: "a", S: &JS{Kind: "int"}}}}}}}}
+			env.comps["Cat"] = env.comps["Pet"]
+			env.names = []string{"Cat", "Pet"}
+			g := GenSpec{Name: fmt.Sprintf("x00_k%dr", wi), Spec: env.specDoc(), Ext: "json", DoNotEdit: true}
+			g2 := g
+			g2.Name = fmt.Sprintf("x00_k%di", wi)
+			g2.Spec = inlinedSpec(g.Spec, false)
+			pairs = append(pairs, pair{kind: "json", ref: g, inl: g2, env: env})
 		}
 	}
 	var results []GenResult
